@@ -404,7 +404,7 @@ func genC03(t *rapid.T) c03Case {
 		Appear:   pick(t, "appear", 0, 0, 0, 1, 2, 3, 4, 5),
 	}
 	if rapid.IntRange(0, 3).Draw(t, "fault") == 0 {
-		c.FaultAt, c.FaultErr = rapid.IntRange(1, 5).Draw(t, "fault_at"), rapid.IntRange(0, len(c14Faults)-1).Draw(t, "fault_err")
+		c.FaultAt, c.FaultErr = rapid.IntRange(1, 8).Draw(t, "fault_at"), rapid.IntRange(0, len(c14Faults)-1).Draw(t, "fault_err")
 	}
 	return c
 }
